@@ -82,10 +82,31 @@ def regsDiff (mask : Byte) (g s : Regs) : List String :=
   (if g.y != s.y then [s!"Y:{hexB g.y}!={hexB s.y}"] else []) ++
   (if !pbits mask g.p s.p then [s!"P:bits={hexB ((g.p ^^^ s.p) &&& ~~~mask)}:{hexB g.p}!={hexB s.p}"] else [])
 
+/-- the specification's own run of a program on the sparse bus up to what stops it: `halt` (BRK; registers after it),
+    `illegal` (undecodable opcode; registers before it), `budget` (the bus budget of the harness is used up: no BRK was
+    reached within it) or `open` (the data sheets leave an instruction's outcome open, or an error they do not name) -/
+def specRunStopS (model : CpuModel) : Nat → Regs → SBus → String × Regs
+  | 0, r, _ => ("budget", r)
+  | fuel + 1, r, b =>
+    match (Spec.step model r).run sbus r b with
+    | (.ok (some (out, r')), b') => if out.halt then ("halt", r') else specRunStopS model fuel r' b'
+    | (.ok none, _) => ("open", r)
+    | (.error (.illegal _ _), _) => ("illegal", r)
+    | (.error .budget, _) => ("budget", r)
+    | (.error _, _) => ("open", r)
+
+/-- the byte in front of the final program counter in the memory the Go run left (initial bytes and its own stores):
+    the opcode of the instruction a run that halted must have stopped at -/
+def goPrevByte (mem0 : List (Addr × Byte)) (g : GoResult) : Byte :=
+  let a := g.regs.pc - 1
+  match g.trace.toList.reverse.find? (fun e => e.write && e.addr == a) with
+  | some e => e.val
+  | none => ({ mem := mem0, trace := #[], budget := 0 } : SBus).get a
+
 /-- The executable specification applied to the Go result of a one-instruction run.
     Returns violation tags `C01:..`, `C02:..`, `C03:..`, `C11:..`; `skip` when the specification does
     not constrain the case (invalid BCD) or the run has more than one instruction. -/
-def specCheck (model : CpuModel) (r0 : Regs) (mem0 : List (Addr × Byte)) (g : GoResult) : List String × String :=
+def specCheck1 (model : CpuModel) (r0 : Regs) (mem0 : List (Addr × Byte)) (bud : Nat) (g : GoResult) : List String × String :=
   if g.kind == "hostcrash" then (["C11:hostcrash"], "crash") else
   let bus0 : SBus := { mem := mem0, trace := #[], budget := 1000 }
   -- collect the specification tree's store masks while running it
@@ -110,7 +131,21 @@ def specCheck (model : CpuModel) (r0 : Regs) (mem0 : List (Addr × Byte)) (g : G
     else
       let b1 : SBus := { b with trace := #[] }
       let next := b1.get r1.pc
-      if next != 0 then ([], "multi")
+      if next != 0 then
+        -- more than one instruction: the specification's own run with the bus budget of the request says how the run
+        -- ends.  Property C11: a run that stops halts at a BRK or returns an error.
+        let (kS, rS) := specRunStopS model (bud + 1) r0 { mem := mem0, trace := #[], budget := bud }
+        if kS == "budget" then
+          -- no BRK within the budget (an endless loop, as far as the harness lets it run): the code has to use the
+          -- budget up as well; a halt is a run that stopped without error where the specification's run is not at a BRK
+          ((if g.kind == "halt" then ["C11:halt:spec-run-reaches-no-brk-within-budget"] else []), "multi.budget")
+        else if kS == "illegal" then
+          ((if coarse g.kind != "error" then [s!"C11:kind:{g.kind}:want=error-at-undefined-opcode"] else []) ++
+           (if coarse g.kind == "error" && g.regs.pc != rS.pc then ["C11:regs:PC-at-undefined-opcode"] else []), "multi.illegal")
+        else if kS == "halt" then
+          ((if g.kind == "halt" && g.regs.pc != rS.pc && goPrevByte mem0 g == 0 then ["C01:halt-at-another-brk:PC"]
+            else if coarse g.kind != "halt" then [s!"C01:kind:{g.kind}:want=halt"] else []), "multi.halt")
+        else ([], "multi")
       else
         let expTrace := b.trace.push ⟨false, r1.pc, 0⟩
         let r2 := { r1 with pc := r1.pc + 1 }
@@ -131,6 +166,14 @@ def specCheck (model : CpuModel) (r0 : Regs) (mem0 : List (Addr × Byte)) (g : G
           (if g.cycles != out.cycles then [s!"C02:cycles:{g.cycles}!={out.cycles}"] else []) ++
           (if !traceOk then ["C03:trace"] else [])
         (v, "one")
+
+/-- `specCheck1` plus what holds of every run: one that ended without an error ended at a BRK — the byte in front of the
+    final program counter, in the memory as the run left it, is the BRK opcode (C11) -/
+def specCheck (model : CpuModel) (r0 : Regs) (mem0 : List (Addr × Byte)) (bud : Nat) (g : GoResult) : List String × String :=
+  let (v, cls) := specCheck1 model r0 mem0 bud g
+  if g.kind == "halt" && goPrevByte mem0 g != 0 && !(v.any (·.startsWith "C11:")) then
+    (v ++ [s!"C11:halt-not-at-brk:prev={hexB (goPrevByte mem0 g)}"], cls)
+  else (v, cls)
 
 def splitOnce (s sep : String) : String × String :=
   match s.splitOn sep with
@@ -177,7 +220,7 @@ def handleRun (line : String) : String :=
         (if kind == "halt" && g.cycles != mach.cycles then [s!"cycles:{g.cycles}!={mach.cycles}"] else []) ++
         (if (g.trace.toList.filter (·.write)) != (mach.mem.trace.toList.filter (·.write)) then ["stores"] else []) ++
         (if g.trace != mach.mem.trace then [s!"trace:model={showTrace mach.mem.trace}"] else [])
-      let (viol0, cls) := specCheck model regs mem.reverse g
+      let (viol0, cls) := specCheck model regs mem.reverse bud g
       let opc := match mem.reverse.find? (·.1 == regs.pc) with | some (_, v) => v | none => 0
       let sfx := s!"@opc={hexB opc}:model={m}"
       let viol := viol0.map (· ++ sfx)
